@@ -91,6 +91,9 @@ Definition do_walk (ref : refid) (names : list string) (ga : bool) : M (res (lis
     match names with
     | [] =>
         fr <- the_ref ref ;;
+        match fr_xof fr with
+        | Some _ => fail linux_EINVAL        (* an xattr fid is not part of the path tree: no clone *)
+        | None =>
         r <- walk_one ga (fr_file fr) (fr_node fr) [] ;;
         match r with
         | inl e => ret (inl e)
@@ -107,6 +110,7 @@ Definition do_walk (ref : refid) (names : list string) (ga : bool) : M (res (lis
             end ;;
             incref nr ;;
             ret (inr ([], nr, a))
+        end
         end
     | _ => incref ref ;; walk_loop names ref [] v0
     end.
